@@ -589,6 +589,14 @@ func (runInfo *runInfoStruct) invokeNilCoalescingOpExpr(expr *ast.NilCoalescingO
 			return
 		}
 	} else {
+		// an interrupted run must not be resumed by the right side
+		select {
+		case <-runInfo.ctx.Done():
+			runInfo.rv = nilValue
+			runInfo.err = ErrInterrupt
+			return
+		default:
+		}
 		runInfo.err = nil
 	}
 	runInfo.expr = expr.RHS
